@@ -620,3 +620,40 @@ func post_Counters_All_complete(s *Counters, res0 []Counter) bool {
 		return !vs.Has(m, k) || (len(res0) >= 1 && specIsCopyOf(res0[0], m[k])) || (len(res0) >= 2 && specIsCopyOf(res0[1], m[k]))
 	})
 }
+
+// ---------------------------------------------------------------------------------------------------------
+// Subscribers.AddRange without a filter (how Lookup collects the subscribers of every matching node; C01): the
+// receiver becomes its union with the source - every member of the source is in it under the same key, every other
+// key is as it was (so a subscriber reached through two matching filters is there ONCE) - for sets of any size
+// (loop invariant over the keys the range has visited; unbounded). With a filter the loop calls an unknown
+// function per member: not under this contract.
+//@ verify (*Subscribers).AddRange pre=pre_AddRange post=post_AddRange_union,post_AddRange_others props=C01
+//@ loop (*Subscribers).AddRange 0 inv inv_AddRange_union,inv_AddRange_others modifies=* for=AddRange
+func pre_AddRange(s *Subscribers, from Subscribers, filter func(s Subscriber) bool) bool {
+	return s != nil && *s != nil && from != nil && filter == nil && !vs.SameMap(*s, from)
+}
+func inv_AddRange_union(s *Subscribers, from Subscribers) bool {
+	if s == nil {
+		return false
+	}
+	m := *s
+	return m != nil && !vs.SameMap(m, from) && vs.ForallKey(from, func(k uint32) bool {
+		return !vs.Has(from, k) || !vs.Ranged(from, k) || (vs.Has(m, k) && m[k] == from[k])
+	})
+}
+func inv_AddRange_others(s *Subscribers, from Subscribers) bool {
+	m := *s
+	return vs.ForallKey(m, func(k uint32) bool {
+		return (vs.Has(from, k) && vs.Ranged(from, k)) || (vs.Has(m, k) == specHadKey(s, k) && (!vs.Has(m, k) || m[k] == specOldAt(s, k)))
+	})
+}
+func post_AddRange_union(s *Subscribers, from Subscribers) bool {
+	m := *s
+	return vs.ForallKey(from, func(k uint32) bool { return !vs.Has(from, k) || (vs.Has(m, k) && m[k] == from[k]) })
+}
+func post_AddRange_others(s *Subscribers, from Subscribers) bool {
+	m := *s
+	return vs.ForallKey(m, func(k uint32) bool {
+		return vs.Has(from, k) || (vs.Has(m, k) == specHadKey(s, k) && (!vs.Has(m, k) || m[k] == specOldAt(s, k)))
+	})
+}
